@@ -4,7 +4,7 @@ import re
 from rlib import T, table, py, fn_site, Bottom, Unanalysable
 from pete import SV, RInt, CellV, NONE
 from prog import walk
-from calmodel import CalModel, typical_terms, synthetic_months
+from calmodel import CalModel, typical_terms, synthetic_months, with_lengths
 import calendar_oracle as CAL
 
 # cycle type -> name table, where it is not UPPER_SNAKE(type) + _NAMES (reason)
@@ -300,7 +300,8 @@ def run(ctx):
     # ---- weeks: stepping by n moves the first day by exactly 7n days, forwards and backwards, also into and out of leap months
     def wday(n):
         return (n + 1) % 7
-    cmw = CalModel(I, {}, synthetic_months(2023, CAL.jdn(2023, 1, 22), 3, leap={2023: 2, 2025: 6}, prev_months=2, auto_leap=False))
+    # (one 28-day and one 31-day month: the library's own fitted new-moon table has a 28-day lunation, and week arithmetic must not assume 29 / 30)
+    cmw = CalModel(I, {}, with_lengths(synthetic_months(2023, CAL.jdn(2023, 1, 22), 3, leap={2023: 2, 2025: 6}, prev_months=2, auto_leap=False), {(2024, 3): 28, (2024, 8): 31}))
 
     def sw(x):
         y, m, i, start, n = x
